@@ -94,9 +94,15 @@ def build_catalogs(rng, sc):
     total = 0
     for attempt in range(30):
         allra, alldec = [], []
-        for mb in sc['members']:
-            n = rng.choice([2, 3, 5, 8])
-            x, y = W.grid_pixels(rng, n, W.shape_of(mb['par']))
+        # now and then one member (not the first) has NO sources at all: it must still receive the group's correction
+        empty = rng.randrange(1, len(sc['members'])) if len(sc['members']) >= 2 and rng.random() < 0.3 else None
+        sc['empty_member'] = empty
+        for km, mb in enumerate(sc['members']):
+            n = 0 if km == empty else rng.choice([2, 3, 5, 8])
+            if n == 0:
+                x, y = np.zeros(0), np.zeros(0)
+            else:
+                x, y = W.grid_pixels(rng, n, W.shape_of(mb['par']))
             mb['x'], mb['y'] = x, y
             ra, dec = mb['c'].det_to_world(x, y)
             mb['ra0'], mb['dec0'] = np.asarray(ra, dtype=float), np.asarray(dec, dtype=float)
@@ -191,7 +197,10 @@ def align_once(ck, rng, sc, j, t):
         gy = GRIDY * (2.0 if mb['par']['kind'] == 'gwcs' else 1.0)
         ra, dec = cc.det_to_world(GRIDX, gy)
         out['sky'].append((np.asarray(ra, dtype=float), np.asarray(dec, dtype=float)))
-        out['land'].append(W.sep_arcsec(*cc.det_to_world(mb['x'], mb['y']), mb['rra'], mb['rdec']))
+        if len(mb['x']):
+            out['land'].append(W.sep_arcsec(*cc.det_to_world(mb['x'], mb['y']), mb['rra'], mb['rdec']))
+        else:
+            out['land'].append(np.zeros(1))     # member without sources: nothing to land (its map is checked on the grid)
     return out
 
 
@@ -204,12 +213,14 @@ def bounds(sc, j, Mu, su):
     sep = max(float(W.sep_arcsec(a[0], a[1], c_[0], c_[1])) for a in tps for c_ in tps)
     if sep < 1e-6:
         sep = 0.0            # common tangent point: plane-to-plane maps are exactly affine
-    corr = max(float(W.sep_arcsec(mb['ra0'], mb['dec0'], mb['rra'], mb['rdec']).max()) for mb in sc['members'])
+    corr = max(float(W.sep_arcsec(mb['ra0'], mb['dec0'], mb['rra'], mb['rdec']).max()) for mb in sc['members']
+               if len(mb['ra0']))
     L = 0.0
     for mb in sc['members']:
         for a in tps:
-            L = max(L, float(W.sep_arcsec(mb['gra0'], mb['gdec0'], a[0], a[1]).max()),
-                    float(W.sep_arcsec(mb['ra0'], mb['dec0'], a[0], a[1]).max()))
+            L = max(L, float(W.sep_arcsec(mb['gra0'], mb['gdec0'], a[0], a[1]).max()))
+            if len(mb['ra0']):
+                L = max(L, float(W.sep_arcsec(mb['ra0'], mb['dec0'], a[0], a[1]).max()))
     first = CPL * (corr * RAD) * (sep * RAD) * (L * RAD) / RAD
     dM = float(np.linalg.norm(Mu - np.eye(2), 2))
     tol = []
